@@ -22,7 +22,8 @@ ASSUMPTIONS = [
 
 
 def bounds(tier):
-    return dict(routes="accepted generic records (default lengths, 4 rotations) produced along: " + ", ".join(gen.ROUTES[1:]),
+    return dict(three_prime_cutters="signature-typed module and vector parts over BtsI, BsrDI, BseRI (3' overhangs): concrete and N signatures, two body lengths, all rotations",
+                routes="accepted generic records (default lengths, 4 rotations) produced along: " + ", ".join(gen.ROUTES[1:]),
                 linear_molecules="every rotation of the accepted generic records (default lengths) and of the accepted unmodified kit instances, declared linear "
                                  "(plain SeqRecord, topology linear / Linear / LINEAR / annotated): accepted only if readable without crossing the ends, with those overhangs",
                 instances="every concrete kit class x fills {0,1} x star lengths {3,8}" if tier == "thorough" else "every concrete kit class x fill 0 x star lengths {3,8}",
@@ -35,7 +36,7 @@ def bounds(tier):
 
 def goals(tier):
     return ["accepts:" + c.__name__ for c in gen.kit_classes()] + [ "accepted-with-extra-site", "module-kind", "vector-kind", "234r-style", "neighbour-kit-structure-accepted",
-            "mutated-letter-accepted", "registry-pair", "generic-pair", "degenerate-far-side-is-a-site", "degenerate-far-side-is-not-a-site", "linear-molecule-accepted", "linear-molecule-rejected", "record-produced-along-another-route"]
+            "mutated-letter-accepted", "registry-pair", "generic-pair", "degenerate-far-side-is-a-site", "degenerate-far-side-is-not-a-site", "linear-molecule-accepted", "linear-molecule-rejected", "record-produced-along-another-route", "three-prime-overhang-enzyme"]
 
 
 # ---------------------------------------------------------------------------------------------
@@ -51,6 +52,7 @@ def oracle(cls, s, ov_start, ov_end, target, placeholder):
     if len(ov_start) != g.ov or len(ov_end) != g.ov:
         return "overhang-length", [ov_start, ov_end]
     found = None
+    shift = g.ov if g.three else 0
     for w1 in ws:
         if rm.circ_slice(up, w1[0], g.ov) != ov_start:
             continue
@@ -61,7 +63,8 @@ def oracle(cls, s, ov_start, ov_end, target, placeholder):
                 continue
             ln = (w2[0] - w1[0]) % n
             # module: target = [c1, c2) ; vector: target = [c_up, c_down) where start overhang = up
-            if rm.circ_slice(up, w1[0], ln) == target:
+            # (5' cutters: c = start of the overhang window; 3' cutters: c = its end)
+            if rm.circ_slice(up, w1[0] + shift, ln) == target:
                 found = (w1, w2, ln)
                 break
         if found:
@@ -83,7 +86,7 @@ def oracle(cls, s, ov_start, ov_end, target, placeholder):
                 if w3 is w1 or w3 is w2:
                     continue
                 rel = (w3[0] - w1[0]) % n
-                if 0 < rel < ln:
+                if 0 < rel < ln and not g.three:
                     # a position that carries the (degenerate) site in both orientations at once is a special family:
                     # Bio.Restriction reports one orientation per position, so the library's site screen miscounts
                     fw = set(w[2] for w in ws if w[1] == 1)
@@ -96,7 +99,7 @@ def oracle(cls, s, ov_start, ov_end, target, placeholder):
             style = "234r-style"
     if vec:
         ph = placeholder.upper()
-        exp = rm.circ_slice(up, w2[0], n - ln)
+        exp = rm.circ_slice(up, w2[0] + shift, n - ln)
         if len(ph) + len(target) != n:
             return "placeholder-and-target-do-not-cover-the-plasmid-once", dict(placeholder=len(ph), target=len(target), n=n)
         if ph != exp:
@@ -224,8 +227,51 @@ def modifications(s, g, tier):
     return out
 
 
+THREE_PRIME = ["BtsI", "BsrDI", "BseRI"]
+_p3 = {}
+
+
+def part3(enz, kind, sig):
+    """signature-typed part over an enzyme that leaves 3' overhangs (only such classes can use these enzymes)"""
+    key = (enz, kind, sig)
+    if key not in _p3:
+        import Bio.Restriction as R
+        from moclo.core import parts, modules, vectors
+        base = modules.Entry if kind == "module" else vectors.EntryVector
+        _p3[key] = type(str("P3_{}_{}_{}".format(enz, kind, "_".join(sig))), (parts.AbstractPart, base), {"cutter": getattr(R, enz), "signature": sig})
+    return _p3[key]
+
+
+def unit_three_prime(st, enz, tier):
+    import Bio.Restriction as R
+    g = gen.geometry_of(getattr(R, enz))
+    words = gen.overhang_words(g.ov, 4, 2)
+    forbid = [g.site]
+    n_ok = 0
+    for (o5, o3) in [(words[0], words[1]), (words[1], words[2]), (words[2], words[0])]:
+        for blen in (2, 5):
+            body = gen.word(0, 7 + blen, blen, forbid)
+            x, y = gen.word(0, 3, g.off, forbid), gen.word(0, 17, g.off, forbid)
+            mod = gen.mk_module(g, o5, body, o3, gen.word(1, 31, 5, forbid), x=x, y=y)
+            vec = gen.mk_vector(g, o5, o3, gen.word(1, 61, blen + 2, forbid), gen.word(0, 47, 3, forbid), x=x, y=y)
+            for kind, s, sigs in (("module", mod, [(o5, o3), ("N" * g.ov, o3), (o5, "N" * g.ov)]), ("vector", vec, [(o5, o3), ("N" * g.ov, "N" * g.ov)])):
+                if rm.count_sites(s, g) != 2:
+                    st.filtered += 1
+                    continue
+                for sig in sigs:
+                    cls = part3(enz, kind, sig)
+                    gen.prime([cls])
+                    sc = dict(family="three-prime", enz=enz, kind=kind, signature=list(sig), seq=s)
+                    if check_pair(st, cls, s, sc, range(len(s))):
+                        n_ok += 1
+                        st.goal("three-prime-overhang-enzyme")
+                    else:
+                        st.violation("typing", "three-prime-part-rejects-its-own-instance", sc, "accepted", "rejected")
+    st.sample(dict(family="three-prime", enz=enz, kind="module", rotation=1))
+
+
 def units(tier):
-    us = []
+    us = [("three-prime", e) for e in THREE_PRIME]
     cls = gen.kit_classes()
     for c in cls:
         us.append(("instances", c.__name__))
@@ -243,6 +289,8 @@ def units(tier):
 
 def run_unit(unit, st, tier):
     kind, arg = unit
+    if kind == "three-prime":
+        return unit_three_prime(st, arg, tier)
     allcls = gen.prime()
     names = {c.__name__ for c in allcls}
     if kind == "instances":
@@ -359,6 +407,11 @@ def extra_coverage(tier, st):
 
 def replay(scn, sub, st):
     fam = scn["family"]
+    if fam == "three-prime":
+        cls = part3(scn["enz"], scn["kind"], tuple(scn["signature"]))
+        gen.prime([cls])
+        check_pair(st, cls, scn["seq"], {k: v for k, v in scn.items() if k != "rotation"}, [scn.get("rotation", 0)])
+        return
     cls = gen.class_by_name(scn["cls"])
     gen.prime([cls])
     s = regs.by_id(scn["reg"], scn["id"])["seq"] if fam == "registry" else scn["seq"]
